@@ -262,7 +262,8 @@ def run(ctx):
               witness=None if r is None else {'blocks': r[0]})
     full_range(ctx, 'C04.O3', pef, 'Edge::outputs_', 'dependents of every output are woken')
     nfn = prog.fn('Plan::NodeFinished')
-    ls = loops_over(nfn, 'Node::out_edges_')
+    ls = loops_over(nfn, lambda d: (d.get('k') == 'mem' and d.get('n') == 'Node::out_edges_') or
+                    (d.get('k') == 'call' and d.get('name') == 'Node::out_edges'))     # the member, its accessor, or a local copy of either
     if not ls:
         # out_edges() accessor: accept a loop over the accessor result
         ok = any(mentions_call(b['term'].get('cond'), 'Node::out_edges') for b in nfn.blocks.values() if b.get('term'))
